@@ -8,6 +8,18 @@ MATCH = dict(name="match", pkg="./integration/", test="TestVerifMatch", files=IN
              nq=60000, nt=600000)
 
 PROPS = {
+    "C12": dict(
+        lean_modules=["L4.Props.C12", "L4.Expect.C12"],
+        stages=[
+            dict(name="pp", pkg="./integration/", test="TestVerifPP", files=INTEG + ["integration/verif_chain_test.go", "integration/verif_pp_test.go"], nq=300, nt=6000),
+            dict(name="chain", pkg="./integration/", test="TestVerifChain", files=INTEG + ["integration/verif_chain_test.go"], nq=500, nt=10000, lean=False,
+                 only_sigs=["stream", "pp-addr", "chain-error", "recorder-missing"]),
+        ],
+        level_text='Kernel-checked: strip-exactness on the C01 connection model for every read pattern of the header parser; a v2 header emitted for IPv4 TCP/UDP addresses parses back (by a parser written from the specification) to the same addresses with a length equal to the bytes emitted; emitted v1/v2 headers carry the signature the proxy_protocol matcher accepts; the allow decision is `no rules or some rule contains the peer`, independent of rule order. The Lean v1/v2 encoders are tied to the bytes the real proxy handler sends to loopback upstreams (exact differential); received-header handling (strip, honoured addresses, untrusted pass-through, allow lists) and sent headers (one per peer, configured version, effective addresses, then the stream) are judged on the implementation with an independent parser.',
+        level_note="Trusted: Lean kernel, harness + driver, mastercactapus/proxyprotocol's header parser (library; its output is compared with the addresses the harness put in). Partial: v1 textual IPv6 and the parse-back theorem for IPv6 / v1 are differential-only; UNIX addresses not generated.",
+        rule="pp: random client/server TCP addresses (IPv4 3/4, IPv6 1/4), proxy_protocol v1/v2 on the proxy handler, 1-2 peers per upstream, optional received v1/v2 header with no / containing / excluding allow list, payloads 0-9000 bytes in 4 segmentation modes; chain: C01's real-handler chains with proxy_protocol in front; non-trivial = a header was sent; distinct = distinct header bytes",
+        assumptions=['loopback upstream listeners read until EOF; 5 s wait per peer'],
+    ),
     "C10": dict(
         lean_modules=["L4.Props.C10", "L4.Expect.C10"],
         stages=[dict(name="lb", pkg="./modules/l4proxy/", test="TestVerifLB", files=PROXY + ["modules/l4proxy/verif_lb_test.go"], nq=4000, nt=100000)],
